@@ -19,7 +19,8 @@ func init() {
 		Explanation: "Structural necessary conditions of 'Marshal then Unmarshal gives the value back, or an error': R1 every integer conversion in the marshal*/unmarshalIntlike functions whose target cannot hold every value of its source is dominated by comparisons that confine the operand to the target's range (interval analysis over guard facts, for GOARCH amd64 and, thorough, 386), or is an explicit mask to the CQL type's width; " +
 			"R2 Marshal, Unmarshal and goType dispatch over exactly the declared CQL types and to handlers of the same family; R3 the fixed-width encoder and decoder primitives are the same big-endian tables and the collection size reader and writer switch width at the same protocol version; R4 null framing: the writers emit length -1 exactly for a nil element encoding, the readers hand nil to the element decoder exactly for a negative length (no stale slice from a previous element); " +
 			"R5 short varint / decimal encodings are sign-extended on every path (the decoder consults the top bit of data[0] for every length 1..7); R6 the masks unmarshalIntlike applies per CQL type equal that type's width and fit the destination; R7 pointer-to-pointer destinations get nil for null and a fresh value otherwise." +
-			" R3 also: the collection size writer refuses a size that does not fit the field it writes (2 bytes up to protocol 2, 4 signed bytes after); R9 the sign extension of a short varint subtracts exactly 2^(8*len), as a term over the symbolic length.",
+			" R3 also: the collection size writer refuses a size that does not fit the field it writes (2 bytes up to protocol 2, 4 signed bytes after); R9 the sign extension of a short varint subtracts exactly 2^(8*len), as a term over the symbolic length." +
+			" R8 also judges where the trimming stops (the first remaining byte must not be redundant on any path, so the encoding is minimal), path-sensitively with drop marks; R10 = C12.R11 (element loops consume), R11 = C12.R6 (vint coding), R12 = C12.R12 (every decoded element gets storage created in its own iteration).",
 		NotDecided: "value equality for every value (varint/decimal trimming boundaries, NaN payloads, time arithmetic): numerical, needs execution; user Marshaler/Unmarshaler implementations; reflection paths into caller-defined types beyond their Kind dispatch.",
 		Rules: []*Rule{
 			{ID: "C02.R1", Floor: 40, Doc: "narrowing integer conversions are range-guarded or width-masked", Run: c02r1},
